@@ -51,6 +51,11 @@ Lemma g_rb_expected : forall e, rollback_expected e = e. Proof. reflexivity. Qed
 (* the roll-back of a refused launch is the CAS loop (exactly one compare_exchange_strong site in start_consumer) *)
 Lemma g_rb_kind : rollback_is_fetch_sub = false. Proof. reflexivity. Qed.
 Lemma g_rb_is_cas_loop : match sites_start_consumer with [(KCasS, _, _)] => True | _ => False end. Proof. exact I. Qed.
+(* both execute() overloads push with CONCURRENT = true: the ring ticket is one atomic fetch_add *)
+Lemma g_move_conc : execute_move_push_concurrent = true. Proof. reflexivity. Qed.
+Lemma g_copy_conc : execute_copy_push_concurrent = true. Proof. reflexivity. Qed.
+Lemma g_push_conc : forall th, push_concurrent_of th = true.
+Proof. intro th. unfold push_concurrent_of. destruct (nth_error (prog th) (opi th)) as [[| | |]|]; reflexivity. Qed.
 Lemma g_keep : forall z, keep_role_while_tickets_out z = negb (z =? 0). Proof. reflexivity. Qed.
 Lemma g_qsize : forall a b, queue_size a b = if b >? a then b - a else 0. Proof. reflexivity. Qed.
 
@@ -75,7 +80,7 @@ Lemma eq_size_is_two_loads : size_is_two_loads = true. Proof. reflexivity. Qed.
 
 Global Opaque signal_amount signal_returns_early launch_accepted rollback_desired rollback_retries poll_nonempty
   poll_limit exit_expected exit_desired join_waits rollback_expected launch_events_init keep_role_while_tickets_out
-  queue_size rollback_is_fetch_sub.
+  queue_size rollback_is_fetch_sub execute_move_push_concurrent execute_copy_push_concurrent push_concurrent_of.
 
 (* ---- lists ---- *)
 Lemma nth_error_upd_nth : forall A (f : A -> A) n l m,
@@ -160,10 +165,11 @@ Ltac gen_norm H :=
   repeat first [ rewrite g_early in H | rewrite g_accept0 in H | rewrite g_accept_m1 in H | rewrite g_retry1 in H
                | rewrite g_retry0 in H | rewrite g_nonempty in H | rewrite g_exit_expected in H | rewrite g_join in H
                | rewrite g_rb_expected in H | rewrite g_rb_desired in H | rewrite g_exit_desired in H
-               | rewrite g_limit in H | rewrite g_keep in H | rewrite g_qsize in H | rewrite g_rb_kind in H ].
+               | rewrite g_limit in H | rewrite g_keep in H | rewrite g_qsize in H | rewrite g_rb_kind in H | rewrite g_move_conc in H
+               | rewrite g_copy_conc in H | rewrite g_push_conc in H ].
 
 Ltac step_cases H :=
-  unfold step_thread, do_signal, consumer_exit in H; cbv zeta in H; gen_norm H;
+  unfold step_thread, do_signal, consumer_exit, take_ticket in H; cbv zeta in H; gen_norm H;
   repeat match type of H with
          | context [match ?x with _ => _ end] => destruct x eqn:?
          end;
@@ -335,6 +341,7 @@ Proof.
   pose proof (c_sigpub _ HC) as SP.
   step_cases Hst; simpl in *; eauto.
   - (* ticket *) apply nth_error_snoc in Hn. destruct Hn as [Hn|[_ ->]]; [eauto | simpl in Hsig; discriminate].
+  - (* ticket, copying overload *) apply nth_error_snoc in Hn. destruct Hn as [Hn|[_ ->]]; [eauto | simpl in Hsig; discriminate].
   - (* publish *) rewrite nth_error_upd_nth in Hn. destruct (Nat.eqb tk k); [|eauto].
     destruct (nth_error (cells s) tk) eqn:E; simpl in Hn; [|discriminate]. inversion Hn; subst. reflexivity.
   - (* signal, early *) rewrite nth_error_upd_nth in Hn. destruct (Nat.eqb n k); [|eauto].
@@ -349,6 +356,7 @@ Lemma cell_pub_mono : forall s t s1 th th' sp, step_thread s t th = Some (s1, th
 Proof.
   intros s t s1 th th' sp Hst k c Hn Hp.
   step_cases Hst; simpl; eauto.
+  - exists c. split; [|exact Hp]. rewrite nth_error_app1; [exact Hn | apply nth_error_Some; congruence].
   - exists c. split; [|exact Hp]. rewrite nth_error_app1; [exact Hn | apply nth_error_Some; congruence].
   - rewrite nth_error_upd_nth. destruct (Nat.eqb tk k) eqn:E; [|eauto].
     apply Nat.eqb_eq in E; subst. rewrite Hn. simpl. eauto.
@@ -369,7 +377,7 @@ Lemma ppub_step : forall s t s', OwnInv s -> CovInv s -> step s t = Some s' ->
 Proof.
   intros s t s' HO HC Hs t0 th0 k Hn Hpc. step_setup Hs s t.
   destruct (install_threads _ _ _ _ _ _ Hn _ Hth1) as [[-> ->]|[[Hne Hold]|[Hin Hne]]].
-  - step_cases Hst; simpl in *; try discriminate. inversion Hpc; subst. rewrite app_length; simpl; lia.
+  - step_cases Hst; simpl in *; try discriminate; inversion Hpc; subst; rewrite app_length; simpl; lia.
   - rewrite Hthr in Hold. pose proof (c_ppub _ HC _ _ _ Hold Hpc). pose proof (cells_length_mono _ _ _ _ _ _ Hst).
     unfold install; simpl. lia.
   - step_cases Hst; spawned_case Hin; simpl in Hpc; discriminate.
@@ -541,6 +549,10 @@ Proof.
     apply nth_error_snoc in Hn. destruct Hn as [Hn|[-> ->]].
     + keep_witness IH Hn Hsig Hth t.
     + simpl. eexists. split; [eapply install_self; eauto | split; [left; reflexivity | reflexivity]].
+  - (* ticket, copying overload *)
+    apply nth_error_snoc in Hn. destruct Hn as [Hn|[-> ->]].
+    + keep_witness IH Hn Hsig Hth t.
+    + simpl. eexists. split; [eapply install_self; eauto | split; [left; reflexivity | reflexivity]].
   - (* publish *)
     rewrite nth_error_upd_nth in Hn. destruct (Nat.eqb tk k) eqn:E.
     + apply Nat.eqb_eq in E; subst. destruct (nth_error (cells s) k) as [c0|] eqn:E0; simpl in Hn; [|discriminate].
@@ -586,13 +598,15 @@ Qed.
 
 (* every ticket was issued to an execute() op of its producer, which has reached or passed that op *)
 Definition CellInv (s : st) : Prop := forall k c, nth_error (cells s) k = Some c ->
-  exists th, nth_error (threads s) (cown c) = Some th /\ nth_error (prog th) (cseq c) = Some OExec /\
+  exists th, nth_error (threads s) (cown c) = Some th /\ exec_at th (cseq c) = true /\
              (cseq c <= opi th)%nat /\ (cseq c = opi th -> tpc th <> Idle).
+
+Ltac ea := unfold exec_at; match goal with H : nth_error (prog _) (opi _) = _ |- _ => rewrite H end; reflexivity.
 
 Lemma cell_origin : forall s t th s1 th' sp, step_thread s t th = Some (s1, th', sp) ->
   forall k c, nth_error (cells s1) k = Some c ->
   (exists c0, nth_error (cells s) k = Some c0 /\ cown c0 = cown c /\ cseq c0 = cseq c) \/
-  (k = length (cells s) /\ tpc th = Idle /\ nth_error (prog th) (opi th) = Some OExec /\ cown c = t /\ cseq c = opi th).
+  (k = length (cells s) /\ tpc th = Idle /\ exec_at th (opi th) = true /\ cown c = t /\ cseq c = opi th).
 Proof.
   intros s t th s1 th' sp Hst k c Hn.
   step_cases Hst; simpl in Hn; eauto;
@@ -602,21 +616,21 @@ Proof.
            match type of Hn with option_map _ ?o = _ => destruct o as [c0|] eqn:E0 end; simpl in Hn; [|discriminate];
            inversion Hn; subst; left; exists c0; simpl; auto
          | eauto ]).
-  apply nth_error_snoc in Hn. destruct Hn as [Hn|[-> ->]]; [eauto | right; simpl; auto].
+  all: apply nth_error_snoc in Hn; destruct Hn as [Hn|[-> ->]]; [eauto | right; simpl; repeat split; auto; ea].
 Qed.
 
 (* what a step does to the stepping thread's op index and pc *)
 Lemma step_thread_progress : forall s t th s1 th' sp, step_thread s t th = Some (s1, th', sp) ->
   prog th' = prog th /\
-  ((opi th' = opi th /\ (tpc th' <> Idle \/ nth_error (prog th) (opi th) <> Some OExec)) \/
-   (opi th' = S (opi th) /\ tpc th' = Idle /\ (tpc th <> Idle \/ nth_error (prog th) (opi th) <> Some OExec))).
+  ((opi th' = opi th /\ (tpc th' <> Idle \/ exec_at th (opi th) = false)) \/
+   (opi th' = S (opi th) /\ tpc th' = Idle /\ (tpc th <> Idle \/ exec_at th (opi th) = false))).
 Proof.
   intros s t th s1 th' sp Hst.
   step_cases Hst; simpl; split; try reflexivity;
     try (left; split; [reflexivity | left; discriminate]);
     try (right; split; [reflexivity | split; [reflexivity | left; congruence]]);
-    try (right; split; [reflexivity | split; [reflexivity | right; congruence]]);
-    try (left; split; [reflexivity | right; congruence]).
+    try (right; split; [reflexivity | split; [reflexivity | right; ea]]);
+    try (left; split; [reflexivity | right; ea]).
 Qed.
 
 Lemma spawned_threads : forall s t th s1 th' sp, step_thread s t th = Some (s1, th', sp) ->
@@ -631,15 +645,15 @@ Proof.
   - destruct (IH _ _ E0) as (th0 & H0 & Hx & Hle & Hid). rewrite Eo, Es in *.
     destruct (Nat.eq_dec (cown c) t) as [E|E].
     + rewrite E in *. rewrite Hth in H0. inversion H0; subst th0.
-      exists th'. split; [eapply install_self; eauto|]. rewrite Pp. split; [exact Hx|].
+      exists th'. split; [eapply install_self; eauto|]. split; [unfold exec_at in *; rewrite Pp; exact Hx|].
       destruct Po as [[Q1 Q2]|[Q1 [_ Q2]]]; rewrite Q1.
-      * split; [exact Hle|]. intro Ec. destruct Q2 as [Q2|Q2]; [exact Q2 | rewrite Ec in Hx; contradiction].
+      * split; [exact Hle|]. intro Ec. destruct Q2 as [Q2|Q2]; [exact Q2 | rewrite Ec in Hx; congruence].
       * split; [lia | intro; lia].
     + exists th0. split; [apply install_other; auto; rewrite Hthr; exact H0 | auto].
-  - rewrite Eo, Es. exists th'. split; [eapply install_self; eauto|]. rewrite Pp. split; [exact Px|].
+  - rewrite Eo, Es. exists th'. split; [eapply install_self; eauto|]. split; [unfold exec_at in *; rewrite Pp; exact Px|].
     destruct Po as [[Q1 Q2]|[Q1 [_ Q2]]]; rewrite Q1.
-    + split; [lia|]. intros _. destruct Q2 as [Q2|Q2]; [exact Q2 | contradiction].
-    + destruct Q2 as [Q2|Q2]; contradiction.
+    + split; [lia|]. intros _. destruct Q2 as [Q2|Q2]; [exact Q2 | congruence].
+    + destruct Q2 as [Q2|Q2]; congruence.
 Qed.
 
 (* tickets of one producer carry increasing op indices (submission order = ticket order) *)
@@ -661,7 +675,7 @@ Qed.
 
 (* every execute() op that was started has its ticket *)
 Definition ExecInv (s : st) : Prop := forall t th i, nth_error (threads s) t = Some th ->
-  nth_error (prog th) i = Some OExec -> ((i < opi th)%nat \/ (i = opi th /\ tpc th <> Idle)) ->
+  exec_at th i = true -> ((i < opi th)%nat \/ (i = opi th /\ tpc th <> Idle)) ->
   exists k c, nth_error (cells s) k = Some c /\ cown c = t /\ cseq c = i.
 
 Lemma cell_persist : forall s t th s1 th' sp, step_thread s t th = Some (s1, th', sp) ->
@@ -673,35 +687,38 @@ Proof.
     try (rewrite nth_error_upd_nth;
          match goal with |- context [if ?b then _ else _] => destruct b eqn:Eb end;
          [ apply Nat.eqb_eq in Eb; subst; rewrite Hn; simpl; eexists; split; [reflexivity | simpl; auto] | eauto ]).
-  exists c. split; [|auto]. rewrite nth_error_app1; [exact Hn | apply nth_error_Some; congruence].
+  all: exists c; (split; [|auto]); rewrite nth_error_app1; [exact Hn | apply nth_error_Some; congruence].
 Qed.
 
 Lemma exec_step : forall s t s', ExecInv s -> step s t = Some s' -> ExecInv s'.
 Proof.
   intros s t s' IH Hs t0 th0 i Hn Hx Hc. step_setup Hs s t.
-  assert (KEEP : forall tt thh, nth_error (threads s) tt = Some thh -> nth_error (prog thh) i = Some OExec ->
+  assert (KEEP : forall tt thh, nth_error (threads s) tt = Some thh -> exec_at thh i = true ->
                  ((i < opi thh)%nat \/ (i = opi thh /\ tpc thh <> Idle)) ->
                  exists k c, nth_error (cells (install s1 t th' sp)) k = Some c /\ cown c = tt /\ cseq c = i).
   { intros tt thh A B C. destruct (IH _ _ _ A B C) as (k & c & E & Eo & Es).
     destruct (cell_persist _ _ _ _ _ _ Hst _ _ E) as (c' & E' & Eo' & Es'). exists k, c'. unfold install; simpl.
     split; [exact E' | split; congruence]. }
   destruct (install_threads _ _ _ _ _ _ Hn _ Hth1) as [[-> ->]|[[Hne Hold]|[Hin Hne]]].
-  - destruct (step_thread_progress _ _ _ _ _ _ Hst) as [Pp Po]. rewrite Pp in Hx.
+  - destruct (step_thread_progress _ _ _ _ _ _ Hst) as [Pp Po].
+    assert (Hx' : exec_at th i = true) by (unfold exec_at in *; rewrite <- Pp; exact Hx). clear Hx. rename Hx' into Hx.
     destruct (Nat.eq_dec i (opi th)) as [Ei|Ei].
     + (* the op the thread is at *)
       destruct (tpc th) eqn:Epc;
         try (apply (KEEP t th Hth Hx); right; split; [exact Ei | rewrite Epc; discriminate]).
       (* Idle: this step takes the ticket *)
-      subst i. clear KEEP. step_cases Hst; try congruence.
-      exists (length (cells s)), {| cown := t; cseq := opi th; cpub := false; csig := false |}.
-      unfold install; simpl. split; [|split; reflexivity].
-      rewrite nth_error_app2 by lia. rewrite Nat.sub_diag. reflexivity.
+      subst i. clear KEEP. step_cases Hst; try congruence;
+        try (unfold exec_at in Hx; match goal with H : nth_error (prog _) (opi _) = _ |- _ => rewrite H in Hx end;
+             discriminate Hx).
+      all: exists (length (cells s)), {| cown := t; cseq := opi th; cpub := false; csig := false |};
+        unfold install; simpl; split; [|split; reflexivity];
+        rewrite nth_error_app2 by lia; rewrite Nat.sub_diag; reflexivity.
     + apply (KEEP t th Hth Hx). left.
       destruct Po as [[Q1 Q2]|[Q1 [Q3 Q2]]]; rewrite Q1 in Hc; destruct Hc as [L|[E N]]; try lia.
       exfalso; apply N; exact Q3.
   - rewrite Hthr in Hold. eapply KEEP; eauto.
   - destruct (spawned_threads _ _ _ _ _ _ Hst) as [->| ->]; simpl in Hin; [contradiction|].
-    destruct Hin as [<-|[]]. simpl in Hx. destruct i; discriminate.
+    destruct Hin as [<-|[]]. unfold exec_at in Hx. simpl in Hx. destruct i; discriminate.
 Qed.
 
 (* a producer about to publish holds its own, still unpublished ticket *)
@@ -715,6 +732,7 @@ Proof.
   intros s t th s1 th' sp Hst k c Hn Hp.
   step_cases Hst; simpl; eauto.
   - left. exists c. split; [|auto]. rewrite nth_error_app1; [exact Hn | apply nth_error_Some; congruence].
+  - left. exists c. split; [|auto]. rewrite nth_error_app1; [exact Hn | apply nth_error_Some; congruence].
   - destruct (Nat.eq_dec tk k) as [->|N]; [right; reflexivity|].
     left. rewrite nth_error_upd_nth. destruct (Nat.eqb tk k) eqn:E; [apply Nat.eqb_eq in E; contradiction | eauto].
   - left. rewrite nth_error_upd_nth. destruct (Nat.eqb n k) eqn:E; [|eauto].
@@ -727,8 +745,8 @@ Lemma ppubinv_step : forall s t s', PPubInv s -> step s t = Some s' -> PPubInv s
 Proof.
   intros s t s' IH Hs t0 th0 k Hn Hpc. step_setup Hs s t.
   destruct (install_threads _ _ _ _ _ _ Hn _ Hth1) as [[-> ->]|[[Hne Hold]|[Hin Hne]]].
-  - step_cases Hst; simpl in *; try discriminate. inversion Hpc; subst.
-    eexists. split; [rewrite nth_error_app2 by lia; rewrite Nat.sub_diag; reflexivity | simpl; auto].
+  - step_cases Hst; simpl in *; try discriminate; inversion Hpc; subst;
+      eexists; (split; [rewrite nth_error_app2 by lia; rewrite Nat.sub_diag; reflexivity | simpl; auto]).
   - rewrite Hthr in Hold. destruct (IH _ _ _ Hold Hpc) as (c & E & P & O).
     destruct (unpub_persist _ _ _ _ _ _ Hst _ _ E P) as [(c' & E' & P' & O')|Hsame].
     + exists c'. unfold install; simpl. split; [exact E' | split; [exact P' | congruence]].
@@ -765,7 +783,7 @@ Proof.
            match type of Hn with option_map _ ?o = _ => destruct o as [c0|] eqn:E0 end; simpl in Hn; [|discriminate];
            inversion Hn; subst; exists c0; simpl; auto
          | eauto ]).
-  rewrite nth_error_app1 in Hn by exact Hk. eauto.
+  all: rewrite nth_error_app1 in Hn by exact Hk; eauto.
 Qed.
 
 Lemma npop_step : forall s t th s1 th' sp, step_thread s t th = Some (s1, th', sp) ->
@@ -790,10 +808,24 @@ Proof.
     rewrite nth_error_skipn_add. replace (npop s + (k - npop s))%nat with k by lia. exact Hn.
 Qed.
 
+(* no thread is ever between the load and the store of a non-atomic ticket acquisition: both execute() overloads
+   push with CONCURRENT = true (g_move_conc, g_copy_conc) *)
+Definition NoTkInv (s : st) : Prop := forall t th i, nth_error (threads s) t = Some th -> tpc th <> PTicket i.
+
+Lemma notk_step : forall s t s', NoTkInv s -> step s t = Some s' -> NoTkInv s'.
+Proof.
+  intros s t s' IH Hs t0 th0 i Hn Hpc. step_setup Hs s t.
+  destruct (install_threads _ _ _ _ _ _ Hn _ Hth1) as [[-> ->]|[[Hne Hold]|[Hin Hne]]].
+  - step_cases Hst; simpl in Hpc; try discriminate;
+      repeat match goal with H : context [match ?x with _ => _ end] |- _ => destruct x; simpl in H end; discriminate.
+  - rewrite Hthr in Hold. eapply IH; eauto.
+  - step_cases Hst; spawned_case Hin; simpl in Hpc; discriminate.
+Qed.
+
 (* ---- all invariants together ---- *)
 Record AllInv (s : st) : Prop := {
   a_own : OwnInv s; a_cov : CovInv s; a_unsig : UnsigInv s; a_cons : ConsInv s; a_cell : CellInv s;
-  a_sorted : SortedInv s; a_exec : ExecInv s; a_ppub : PPubInv s; a_pop : PopInv s
+  a_sorted : SortedInv s; a_exec : ExecInv s; a_ppub : PPubInv s; a_pop : PopInv s; a_notk : NoTkInv s
 }.
 
 Lemma all_init : forall c a f progs, (1 <= c)%nat -> AllInv (init c a f progs).
@@ -809,11 +841,12 @@ Proof.
     destruct Hc0 as [L|[_ N]]; [lia | congruence].
   - intros t th k H E. simpl in H. apply init_thread in H. destruct H as [P _]. congruence.
   - split; [simpl; lia | intros k c0 Hk; simpl in Hk; lia].
+  - intros t th i H E. simpl in H. apply init_thread in H. destruct H as [P _]. congruence.
 Qed.
 
 Lemma all_step : forall s t s', AllInv s -> step s t = Some s' -> AllInv s'.
 Proof.
-  intros s0 t s' [A B C D E F G H I] Hs. constructor.
+  intros s0 t s' [A B C D E F G H I J] Hs. constructor.
   - eapply own_step; eauto.
   - eapply cov_step; eauto.
   - eapply unsig_step; eauto.
@@ -823,6 +856,7 @@ Proof.
   - eapply exec_step; eauto.
   - eapply ppubinv_step; eauto.
   - eapply popinv_step; eauto.
+  - eapply notk_step; eauto.
 Qed.
 
 Lemma reach_all : forall c a f progs s, (1 <= c)%nat -> Reach c a f progs s -> AllInv s.
@@ -831,6 +865,14 @@ Proof.
   apply (inv_reachable st step AllInv (init c a f progs)); auto.
   - apply all_init; exact Hc.
   - intros; eapply all_step; eauto.
+Qed.
+
+Theorem eq_tickets_atomic : execute_move_push_concurrent = true /\ execute_copy_push_concurrent = true /\
+  (forall c a f progs s t th i, (1 <= c)%nat -> Reach c a f progs s ->
+     nth_error (threads s) t = Some th -> tpc th <> PTicket i).
+Proof.
+  split; [exact g_move_conc | split; [exact g_copy_conc|]].
+  intros c a f progs s t th i Hc HR. apply (a_notk _ (reach_all _ _ _ _ _ Hc HR)).
 Qed.
 
 (* ---- exactly once, in order ---- *)
@@ -861,9 +903,9 @@ Qed.
 
 Theorem eq_consumed_at_most_once : forall c a f progs s, (1 <= c)%nat -> Reach c a f progs s ->
   NoDup (delivered s) /\
-  (forall t i, In (t, i) (delivered s) -> exists th, nth_error (threads s) t = Some th /\ nth_error (prog th) i = Some OExec).
+  (forall t i, In (t, i) (delivered s) -> exists th, nth_error (threads s) t = Some th /\ exec_at th i = true).
 Proof.
-  intros c a f progs s Hc HR. pose proof (reach_all _ _ _ _ _ Hc HR) as [A B C D E F G PP PO]. split.
+  intros c a f progs s Hc HR. pose proof (reach_all _ _ _ _ _ Hc HR) as [A B C D E F G PP PO NT]. split.
   - unfold delivered. fold key. pose proof (sorted_nodup s F) as ND.
     rewrite <- (firstn_skipn (ndel s) (cells s)) in ND. rewrite map_app in ND.
     eapply nodup_app_l; eauto.
@@ -875,7 +917,7 @@ Qed.
 Theorem eq_producer_order : forall c a f progs s i j p x y, (1 <= c)%nat -> Reach c a f progs s ->
   (i < j)%nat -> nth_error (delivered s) i = Some (p, x) -> nth_error (delivered s) j = Some (p, y) -> (x < y)%nat.
 Proof.
-  intros c a f progs s i j p x y Hc HR L Hi Hj. pose proof (reach_all _ _ _ _ _ Hc HR) as [A B C D E F G PP PO].
+  intros c a f progs s i j p x y Hc HR L Hi Hj. pose proof (reach_all _ _ _ _ _ Hc HR) as [A B C D E F G PP PO NT].
   unfold delivered in *. rewrite nth_error_map in Hi, Hj.
   destruct (nth_error (firstn (ndel s) (cells s)) i) as [ci|] eqn:Ei; simpl in Hi; [|discriminate].
   destruct (nth_error (firstn (ndel s) (cells s)) j) as [cj|] eqn:Ej; simpl in Hj; [|discriminate].
@@ -969,7 +1011,7 @@ Record QuietInv (s : st) : Prop := {
 }.
 
 Lemma call_res_not_join : forall th rc m, call_res th rc <> RJoin m.
-Proof. intros th rc m. unfold call_res. destruct (nth_error (prog th) (opi th)) as [[| |]|]; discriminate. Qed.
+Proof. intros th rc m. unfold call_res. destruct (nth_error (prog th) (opi th)) as [[| | |]|]; discriminate. Qed.
 
 Lemma quiet_step : forall s t s', AllInv s -> QuietInv s -> step s t = Some s' -> QuietInv s'.
 Proof.
@@ -1031,7 +1073,7 @@ Qed.
 Theorem eq_none_stranded_at_end : forall c a f progs s, (1 <= c)%nat -> Reach c a f progs s ->
   all_done s = true -> stale s = false ->
   events s = 0 /\ delivered s = map key (cells s) /\
-  (forall t th i, nth_error (threads s) t = Some th -> nth_error (prog th) i = Some OExec -> In (t, i) (delivered s)).
+  (forall t th i, nth_error (threads s) t = Some th -> exec_at th i = true -> In (t, i) (delivered s)).
 Proof.
   intros c a f progs s Hc HR Hd Hst. pose proof (reach_all _ _ _ _ _ Hc HR) as HA.
   assert (Hev : events s = 0).
@@ -1047,7 +1089,9 @@ Proof.
   assert (Hdel : delivered s = map key (cells s)) by (unfold delivered; rewrite firstn_all2 by exact L; reflexivity).
   split; [exact Hev | split; [exact Hdel|]].
   intros t th i H Hx. rewrite Hdel. destruct (all_done_thread _ _ _ Hd H) as [P N].
-  apply nth_error_None in N. assert (i < length (prog th))%nat by (apply nth_error_Some; congruence).
+  apply nth_error_None in N.
+  assert (i < length (prog th))%nat
+    by (apply nth_error_Some; unfold exec_at in Hx; destruct (nth_error (prog th) i); [discriminate | discriminate Hx]).
   destruct (a_exec _ HA _ _ _ H Hx) as (k & c0 & E & Eo & Es); [left; lia|].
   apply in_map_iff. exists c0. split; [unfold key; congruence | eapply nth_error_In; eauto].
 Qed.
@@ -1075,9 +1119,12 @@ Proof.
   destruct (tpc th) eqn:Epc; try discriminate.
   - (* Idle with an op left *)
     exists t. unfold step. rewrite Hth. unfold step_thread. rewrite Epc.
-    destruct (nth_error (prog th) (opi th)) as [[| |]|]; [discriminate | | | discriminate Hd].
+    destruct (nth_error (prog th) (opi th)) as [[| | |]|]; [| | | | discriminate Hd].
+    + unfold take_ticket. rewrite g_move_conc. discriminate.
+    + unfold take_ticket. rewrite g_copy_conc. discriminate.
     + unfold do_signal. destruct (signal_returns_early (events s)); discriminate.
     + rewrite g_join, Hev. simpl. discriminate.
+  - exfalso. eapply (a_notk _ HA); eauto.
   - (* PPublish: the producer holding the head ticket can move *)
     destruct (a_ppub _ HA _ _ _ Hth Epc) as (x & Ex & Px & _).
     destruct (a_pop _ HA) as [PL PP].
@@ -1149,7 +1196,8 @@ Qed.
 (* ---- termination once the producers are through ("join() does return") ---- *)
 (* pquiet ("producers quiet"): no thread is between taking a ticket and its fetch_add, and no execute()/signal_push_event() call is still
    to come - every remaining client op is a join().  (A producer may still be inside start_consumer.) *)
-Definition producer_pc (th : thread) : bool := match tpc th with PPublish _ | PSignal _ => true | _ => false end.
+Definition producer_pc (th : thread) : bool :=
+  match tpc th with PTicket _ | PPublish _ | PSignal _ => true | _ => false end.
 Definition is_join (o : op) : bool := match o with OJoin => true | _ => false end.
 Definition rest (th : thread) : list op :=
   match tpc th with Idle => skipn (opi th) (prog th) | _ => skipn (S (opi th)) (prog th) end.
@@ -1215,7 +1263,7 @@ Qed.
 Definition cas_late (x ev : Z) : nat := if x =? ev then 0%nat else 3%nat.
 Definition pcw (ev : Z) (sz : bool) (p : pc) : nat :=
   match p with
-  | Idle | PPublish _ | PSignal _ => 0
+  | Idle | PTicket _ | PPublish _ | PSignal _ => 0
   | PSubmit e => 14 + cas_late e ev
   | PRollback e => 15 + cas_late e ev
   | CStart => 11
@@ -1344,6 +1392,7 @@ Proof.
   - exists t. unfold step. rewrite Hth. unfold step_thread. rewrite Epc.
     destruct (nth_error (prog th) (opi th)) as [o|] eqn:Eo; [|discriminate Hd].
     destruct (pquiet_idle_op _ _ Qt Epc Eo) as [-> _]. rewrite g_join, Hev. simpl. discriminate.
+  - unfold pquiet_thread, producer_pc in Qt. rewrite Epc in Qt. discriminate.
   - unfold pquiet_thread, producer_pc in Qt. rewrite Epc in Qt. discriminate.
   - unfold pquiet_thread, producer_pc in Qt. rewrite Epc in Qt. discriminate.
 Qed.
